@@ -122,6 +122,8 @@ def tmpl(name, args):
         return ("call", "hyp", (), (("y", X), ("x", ("lit", 2))))
     if name == "unit":    # a string literal as positional argument of a call
         return ("call", "scale", (X, ("lit", "k")), ())
+    if name == "flaky":  # a call whose evaluation is a fault point
+        return ("call", "flaky", (X,), ())
     if name == "pair1":  # an item of a call RESULT: f.pair(X)[1]  (the owner of the item ref is a computed expression)
         return ("ix", ("call", "pair", (X,), ()), 1)
     if name == "cplx":   # an attribute of an operator result: (X * 1j).imag
@@ -137,7 +139,7 @@ def tmpl(name, args):
     raise ValueError(name)
 
 
-UNARY = ("mul2", "inc", "neg", "dbl", "pick", "abs", "round1", "lt", "eqx", "floor", "rpow", "abs2", "pair1", "cplx", "kw2", "unit")
+UNARY = ("mul2", "inc", "neg", "dbl", "pick", "abs", "round1", "lt", "eqx", "floor", "rpow", "abs2", "pair1", "cplx", "kw2", "unit", "flaky")
 BINARY_SYM = ("add", "mul")
 BINARY_ASYM = ("sub", "addr", "mulr", "roundr")
 
